@@ -144,10 +144,26 @@ def _run_linpol(case):
     import xarray as xr
     forms = [(k * a, k * b, 0), [k * a, k * b, 0.0], np.array([k * a, k * b, 0.0]), np.array([k * a, k * b]), (a, b, 0.0),
              xr.DataArray([k * a, k * b, 0.0], coords={"vector": ["x", "y", "z"]}, dims="vector")]      # already labelled, any norm
+    # ... any norm at all: amplitudes whose squares leave the range of a double, whole numbers whose squares leave 64 bits (F127), and a
+    # labelled vector whose labels come in another order (the labels say which component is which: F128)
+    ia, ib = int(round(a * 4e9)), int(round(b * 4e9))
+    forms += [(1e170 * a, 1e170 * b), (1e-170 * a, 1e-170 * b), [1e170 * a, 1e170 * b, 0.0],
+              xr.DataArray([k * b, k * a, 0.0], coords={"vector": ["y", "x", "z"]}, dims="vector"),
+              xr.DataArray([0.0, k * a, k * b], coords={"vector": ["z", "x", "y"]}, dims="vector")]
     worst = 0.0
     for pf in forms:
         worst = max(worst, relmax(_calc_field(det, s, th, dict(o, illum_polarization=pf)).values, fab))
     resid["pol_forms@" + t] = worst
+    if ia or ib:
+        fint = _calc_field(det, s, th, dict(o, illum_polarization=(ia, ib))).values
+        fflt = _calc_field(det, s, th, dict(o, illum_polarization=(float(ia), float(ib)))).values
+        resid["pol_forms@" + t] = max(worst, relmax(fint, fflt))
+    # the hologram adds the reference wave by component label: the same forms there
+    from holopy.scattering import calc_holo
+    kw = dict(medium_index=o["medium_index"], illum_wavelen=o["illum_wavelen"], theory=th)
+    h0 = calc_holo(det, s, illum_polarization=(a, b), **kw).values
+    hw = max(relmax(calc_holo(det, s, illum_polarization=pf, **kw).values, h0) for pf in (forms[-1], forms[-2], forms[-5]))
+    resid["pol_forms@" + t] = max(resid["pol_forms@" + t], hw)
     return {"resid": resid, "flags": {}, "fmax": fnum(float(np.abs(fab).max())), "qeps1": cfg["theory"].get("kw", {}).get("qeps1", 1e-5)}
 
 
